@@ -68,6 +68,8 @@ def gather_rule(ctx, col, d, src_name, keys_exprs, what):
 
 def run(ctx, col, tier):
     repo = ctx.repo
+    from ..rules import stateless as _stateless_memo
+    _stateless_memo.run_memo(ctx, col)
     col.rule("R-UNIF", "kept nodes' columns are gathered for the source's whole key set with the "
              "single old-id mapping returned by the compaction call; id/pid come from the same call; "
              "the reported mapping is filled from that very value", floor=9, shape=True)
